@@ -387,9 +387,18 @@ def judge_fork(ctx, rng, code, pred, nscripts, prefork=None):
         ('OP_PUSH2 x0708 {} d1', b'\x04\x00\x02\x07\x08' + bytes([code, 1])),
         ('true if {{ push x01 {} d1 }} true', b'\x01\x2b\x00\x04\x02\x01' + bytes([code, 1]) + b'\x01'),
         ('def 0 {{ {} d0 }} call d0 true', b'\x29\x00\x00\x02' + bytes([code, 0]) + b'\x2a\x00\x01'),
+        ('true loop {{ {} d1 false }}', b'\x01\x45\x00\x03' + bytes([code, 1]) + b'\x00'),
+        ('true if {{ true }} else {{ {} d1 }}', b'\x01\x2c\x00\x01\x01\x00\x02' + bytes([code, 1])),
+        ('try {{ {} d1 }} except {{ {} d1 }}', b'\x3d\x00\x02' + bytes([code, 1]) + b'\x00\x02' + bytes([code, 1])),
+        ('def 0 {} d1 end_def', b'\x29\x00\x00\x02' + bytes([code, 1])),
+        ('if ( true {} d1 ) {{ }}', b'\x01' + bytes([code, 1]) + b'\x2b\x00\x00'),
+        ('push ~ {{ {} d1 }}', b'\x03\x02' + bytes([code, 1])),
     ]
+    # ... under the name and under each alias
+    spelled = [name, aliases[0], aliases[1].lower()]
+    pairs = [(t_.replace('{}', sp), w_) for t_, w_ in pairs for sp in spelled]
     for k_, (tmpl, wantb) in enumerate(pairs):
-        sources[f'placed{k_}'] = tmpl.format(name)
+        sources[f'placed{k_}'] = tmpl.replace('{{', '{').replace('}}', '}')
     # every way of writing the count byte: d / x, values past 9 and past 127
     counts = []
     for cc in (0, 9, 10, 15, 16, 0x25, 0x7f, 0x80, 0xa0, 0xff,
@@ -441,8 +450,10 @@ def judge_fork(ctx, rng, code, pred, nscripts, prefork=None):
     for k_, (tmpl, wantb) in enumerate(pairs):
         ctx.evaluated()
         up = out['compiled'].get(f'placed{k_}')
+        src_ = tmpl.replace('{{', '{').replace('}}', '}')
+        sp_ = spelled[k_ % len(spelled)]
         try:
-            plain_b = parsing.compile_script(tmpl.format(f'NOP{code}'))
+            plain_b = parsing.compile_script(src_.replace(sp_, f'NOP{code}'))
         except BaseException as e:
             plain_b = 'ERR ' + repr(e)[:100]
         if up != wantb or plain_b != wantb:
@@ -450,7 +461,7 @@ def judge_fork(ctx, rng, code, pred, nscripts, prefork=None):
                           'code compiles differently (or not at all) on one '
                           'of the two VMs', {'kind': 'fork-compile', 'code':
                                              code, 'label': f'placed{k_}',
-                                             'src': tmpl.format(name)},
+                                             'src': src_},
                           wantb.hex(), f'upgraded={up!r} plain={plain_b!r}'[:200])
     for k_, (txt, cc) in enumerate(counts):
         ctx.evaluated()
